@@ -1,5 +1,6 @@
 import Pds.Proofs.ReservoirUniform
 import Pds.Proofs.ReservoirReal
+import Pds.Proofs.ReservoirBias
 /-!
 # C05 — reservoir sampling is exactly uniform (counting identities)
 
@@ -136,6 +137,20 @@ probability of the next item; `k/(4k+1)` at the switch, as `switch_uniform` assu
 theorem gap_zero_prob {u p : ℝ} (hu : 0 < u ∧ u ≤ 1) (hp : 0 < p ∧ p < 1) :
     ⌊Real.log u / Real.log (1 - p)⌋ = 0 ↔ 1 - p < u :=
   gap_zero_iff_real hu.1 hu.2 hp.1 hp.2
+
+/-- **The sign of the gap-sampling bias.**  Exact reservoir sampling skips the items `j, …, j+s−1` with
+probability `∏_{t<s} (1 − k/(j+t))`; the code's geometric gap, with the first acceptance probability
+frozen, has `P(gap ≥ s) = (1 − k/j)^s` (`gap_geometric_law`).  The frozen law never overestimates a gap —
+so, relative to exact sampling, the next acceptance comes stochastically earlier (recent items over-, early
+items under-represented: the documented approximation) — and the two laws coincide for `s ≤ 1`, which is
+why the first gap (the switch at `4k + 1`) is exact. -/
+theorem gap_bias_direction {k j : ℕ} (hk : 0 < k) (hkj : k ≤ j) (s : ℕ) :
+    (1 - (k : ℝ) / j) ^ s ≤ ∏ t ∈ Finset.range s, (1 - (k : ℝ) / ((j + t : ℕ) : ℝ)) :=
+  frozen_gap_survival_le hk hkj s
+
+theorem gap_first_step_exact (k j : ℕ) :
+    (1 - (k : ℝ) / j) ^ 1 = ∏ t ∈ Finset.range 1, (1 - (k : ℝ) / ((j + t : ℕ) : ℝ)) :=
+  frozen_gap_survival_one k j
 
 /-! ### non-vacuity -/
 
